@@ -37,7 +37,8 @@ RULE = ("enc: 12 classes x tables of 0..40 entries (+41,100,255,300) x payload l
         "lengths{0,1,2,5,6,9,10,11,20,30}, mutated frames, all octet strings of length <=2, and of length "
         "<=3 (quick) / <=4 (thorough) starting with 0x81.  distinct = distinct (stream, function, size "
         "class / error kind and length bucket) signatures"
-        "; history: message objects sent, looped back through the intermediate BVLPDU, changed and sent again through two real AnnexJCodecs, refused sends/datagrams in between, buffer-aliasing checks")
+        "; history: message objects sent, looped back through the intermediate BVLPDU, changed and sent again through two real AnnexJCodecs, refused sends/datagrams in between, buffer-aliasing checks"
+        "; wave 5: caller-owned input buffers (aliasing on the input side) and a subclass-history stream in forked workers (unregistered user subclasses of the 12 BVLL classes with overridden decode / extra ctor argument, then standard traffic through a plain AnnexJCodec and a registry identity check)")
 TRUSTED = ["lean/BacVerif/Model/Bvll.lean is a hand transcription of bvll.py, pack/unpack_ip_addr and "
            "AnnexJCodec; tied by the enc/dec/cdec/bdec/benc/pack/unpack correspondence streams",
            "translator/registries.py (bvl_pdu_types -> Gen/BvlTypes.lean)",
@@ -654,7 +655,15 @@ def hist_send(st, slots, probe):
     m, slot = st["m"], st.get("slot")
     o = slots.get((slot, m[0])) if slot is not None else None
     if o is None:
-        o = mk_msg(m)
+        if m[0] in (0x04, 0x09, 0x0A, 0x0B):
+            # the payload comes in a caller-owned bytearray that is recycled right after construction
+            from bacpypes import bvll as B
+            payload = bytearray.fromhex(m[-1])
+            o = getattr(B, CLASSES[m[0]])(mk_ip(m[1]), payload) if m[0] == 0x04 else getattr(B, CLASSES[m[0]])(payload)
+            payload[:] = b"\x30\x01\x0c"
+            payload += b"\x99"
+        else:
+            o = mk_msg(m)
         if slot is not None:
             slots[(slot, m[0])] = o
     else:
@@ -707,6 +716,47 @@ def hist_send(st, slots, probe):
         return case, err_reply(e, ("python:ValueError", "python:TypeError"))
 
 
+def hist_recv(st, probe):
+    """one `cdec` step: the datagram sits in a CALLER-OWNED bytearray (the
+    receive buffer).  Delivering PDU(frame) to the codec must leave the buffer
+    alone, the same buffer presented again must be read the same way, and
+    changing it afterwards must not change what was delivered."""
+    from bacpypes.pdu import PDU, Address
+    u, c, l = stack(st.get("codec", 0))
+    keep = bytes.fromhex(st["hex"])
+    frame = bytearray(keep)
+
+    def deliver(source):
+        u.got = None
+        try:
+            l.response(PDU(source, source=Address(("10.1.2.3", 47808)), destination=Address(("10.1.2.4", 47808))))
+        except KeyError as e:
+            return {"r": "unknown", "fn": e.args[0]}, None
+        except Exception as e:
+            return err_reply(e, ()), None
+        if u.got is None:
+            return {"r": "nothing-delivered"}, None
+        return {"r": "ok", "m": jmsg(u.got), "len": u.got.bvlciLength}, u.got
+    reply, obj = deliver(frame)
+    if bytes(frame) != keep:
+        probe.fail("aliasing", None, "delivering PDU(frame) changed the caller's receive buffer: %d of %d octets left" % (len(frame), len(keep)))
+        return reply
+    again, _ = deliver(frame)
+    if again != reply:
+        probe.fail("not-repeatable", None, "the same buffer delivered again reads %s" % (core.canon(again)[:200],))
+    outer = PDU(keep)
+    third, _ = deliver(outer.pduData)
+    if bytes(outer.pduData) != keep:
+        probe.fail("aliasing", None, "delivering PDU(other.pduData) emptied / changed the other PDU")
+    if obj is not None:
+        before = core.canon(jmsg(obj))
+        frame[:] = b"\xff" * len(frame)
+        frame += b"\x00"
+        if core.canon(jmsg(obj)) != before:
+            probe.fail("aliasing", None, "changing the receive buffer after delivery changed the delivered message")
+    return reply
+
+
 def exec_history(steps):
     """run the steps in order in THIS process; [(stateless case, reply, [(kind, what)])]"""
     slots, out = {}, []
@@ -714,6 +764,9 @@ def exec_history(steps):
         probe, reuse = Probe(), Probe()
         if st["op"] in ("send", "loop"):
             case, reply = hist_send(st, slots, reuse)
+        elif st["op"] == "cdec":
+            case = dict(st)
+            reply = hist_recv(st, reuse)
         else:
             case = dict(st)
             reply = impl(case)
@@ -726,11 +779,11 @@ def exec_history(steps):
 def shrink_history(steps, i):
     def fails(cand):
         return bool(exec_history(cand)[-1][2])
+    if fails([steps[i]]):
+        return [steps[i]]
     for j in range(i - 1, max(-1, i - 10), -1):
         if fails([steps[j], steps[i]]):
             return [steps[j], steps[i]]
-    if fails([steps[i]]):
-        return [steps[i]]
     if fails(steps[max(0, i - 10):i + 1]):
         return steps[max(0, i - 10):i + 1]
     return steps[:i + 1]
@@ -748,7 +801,9 @@ def run_histories(ctx, stream, histories):
                 small = shrink_history(steps, i)
                 kind, what = fails[0]
                 ctx.fail(kind, {"op": "history", "steps": small},
-                         "last step (%s) of this history, run in one process: %s" % (steps[i]["op"], what), op="history")
+                         "last step (%s) of this history, run in one process (payloads come from caller-owned bytearrays that "
+                         "are recycled after construction, datagrams are delivered out of caller-owned bytearrays): %s" % (
+                             steps[i]["op"], what), op="history")
     if ctx.model_ok and cases:
         b = core.Driver("drv_c09").ask(cases)
         keep = lambda r, a: {k: v for k, v in r.items() if k in a or k in ("r", "k")}
@@ -759,6 +814,101 @@ def run_histories(ctx, stream, histories):
             ctx.count(stream)
     for h in histories[:2]:
         ctx.sample({"stream": stream, "history": [short_case(c) for c in h[:4]]})
+
+
+# ---------------------------------------------------------------- user subclasses of the library message classes
+
+class Wrap:
+    """ctx whose failures carry the context needed to replay them"""
+
+    def __init__(self, ctx, tag, why):
+        self._ctx, self._tag, self._why = ctx, tag, why
+
+    def fail(self, kind, case, what, **f):
+        self._ctx.fail(kind, {"op": self._tag, "step": case}, self._why + what, **dict(f, op=self._tag))
+
+    def __getattr__(self, k):
+        return getattr(self._ctx, k)
+
+
+def define_user_subclasses():
+    """what an application / vendor extension may do: derive helper classes from
+    the library's BVLL message classes — overriding decode, changing the
+    constructor, or nothing at all — and use them explicitly, WITHOUT
+    registering them.  Which kind is defined last rotates with the function code."""
+    from bacpypes import bvll as B
+    names = []
+
+    def tagged(base, name):
+        class Tagged(base):
+            def decode(self, bvlpdu):
+                B.BVLCI.update(self, bvlpdu)
+                if len(bvlpdu.pduData) >= 2:
+                    bvlpdu.get_data(2)              # a two octet tunnel tag of the vendor's own frames
+                self.pduData = bvlpdu.get_data(len(bvlpdu.pduData))
+        Tagged.__name__ = "Tagged" + name
+        return Tagged
+
+    def needs_arg(base, name):
+        class NeedsArg(base):
+            def __init__(self, port, *args, **kwargs):
+                base.__init__(self, *args, **kwargs)
+                self.gatewayPort = port
+        NeedsArg.__name__ = "NeedsArg" + name
+        return NeedsArg
+
+    def plain(base, name):
+        class Plain(base):
+            pass
+        Plain.__name__ = "Plain" + name
+        return Plain
+    kinds = [tagged, needs_arg, plain]
+    for code, name in sorted(CLASSES.items()):
+        base = getattr(B, name)
+        for k in range(3):
+            names.append(kinds[(code + k) % 3](base, name).__name__)
+    return names
+
+
+def check_registry(ctx, names):
+    from bacpypes import bvll as B
+    for code, name in sorted(CLASSES.items()):
+        if B.bvl_pdu_types.get(code) is not getattr(B, name):
+            ctx.fail("registry-hijacked", {"op": "subclass-history", "step": {"op": "registry", "fn": code}},
+                     "after defining unregistered subclasses (%s…) bvl_pdu_types[0x%02X] is %r, not bacpypes.bvll.%s" % (
+                         ", ".join(names[:3]), code, B.bvl_pdu_types.get(code), name), op="subclass-history")
+    extra = sorted(set(B.bvl_pdu_types) - set(CLASSES))
+    if extra:
+        ctx.fail("registry-hijacked", {"op": "subclass-history", "step": {"op": "registry", "fn": extra[0]}},
+                 "defining unregistered subclasses added function codes %r to bvl_pdu_types" % (extra,), op="subclass-history")
+
+
+def shard_subclass(ctx, spec):
+    """history: user subclasses of the library message classes exist in the
+    process; standard traffic through a plain AnnexJCodec must be answered as
+    before (= the model), with the library classes"""
+    import os, random
+    ctx.model_ok = os.path.exists(os.path.join(core.LEAN, ".lake", "build", "bin", "drv_c09"))
+    part, seed = spec
+    rng = random.Random(seed)
+    from bacpypes import bvll as B
+    saved = dict(B.bvl_pdu_types)
+    try:
+        names = define_user_subclasses()
+        w = Wrap(ctx, "subclass-history", "after defining unregistered subclasses of the library message classes: ")
+        if part == 0:
+            cases = [c for c in gen_cdec(ctx, rng) if c["op"] == "cdec"]
+        else:
+            msgs = [m for m in gen_msgs(ctx, rng) if msg_in_domain(m) and len(core.canon(m)) < 4000]
+            cases = [{"op": "enc", "m": m, "len": None} for m in msgs[::2]]          # full round trips
+            cases += [{"op": "cdec", "hex": spec_frame(m).hex()} for m in msgs[1::2]]
+            cases += [{"op": "bdec", "fn": fn, "hex": rnd(rng, n)} for fn in sorted(CLASSES) for n in (0, 2, 6, 10, 12)]
+        run_cases(w, "subclass-history", cases)
+        check_registry(ctx, names)
+    finally:
+        B.bvl_pdu_types.clear()
+        B.bvl_pdu_types.update(saved)
+        _stacks.clear()
 
 
 def gen_histories(ctx, rng):
@@ -1130,6 +1280,8 @@ def run(ctx):
         specs += [(4, 0x81000000 + lo, 0x81000000 + lo + step) for lo in range(0, 1 << 24, step)]
     core.run_shards(ctx, "harness.c09", "shard_exh", specs)
     tails = 1 if ctx.quick else 6
+    # run-time defined subclasses live and die in forked workers (>= 2 specs: run_shards forks)
+    core.run_shards(ctx, "harness.c09", "shard_subclass", [(0, ctx.seed), (1, ctx.seed + 1)])
     core.run_shards(ctx, "harness.c09", "shard_other",
                     [(lo, lo + 16, tails, ctx.seed * 1000 + lo) for lo in range(0, 256, 16)])
     ctx.extra["exhaustive_datagram_length"] = {"any": 2, "starting_0x81": 3 if ctx.quick else 4}
@@ -1146,6 +1298,10 @@ def search(ctx):
             ctx.model_ok = model_ok
         if ctx.failures:
             return
+        if rnd_ == 0:
+            core.run_shards(ctx, "harness.c09", "shard_subclass", [(0, 1), (1, 2)])
+            if ctx.failures:
+                return
         frames = []
         for c in gen_enc(ctx, rng):
             r = impl(c)
@@ -1173,6 +1329,12 @@ def replay(ctx, payload):
         raise core.Infra("nothing to replay")
     if case["op"] == "history":
         run_histories(ctx, "replay", [case["steps"]])
+        return
+    if case["op"] == "subclass-history":
+        names = define_user_subclasses()
+        if case["step"].get("op") != "registry":
+            run_cases(Wrap(ctx, "subclass-history", "after defining unregistered subclasses: "), "replay", [case["step"]])
+        check_registry(ctx, names)
         return
     if case["op"] == "mutated-table":
         oracle_mutated_table(ctx, ctx.sub_rng("c09"))
